@@ -351,13 +351,18 @@ def make_coll(variant: int):
     return Coll, Sub
 
 
-def make_uni(fix: bool):
-    """The Uni model with / without bool_union_fix in the Unions that
-    contain bool."""
+def make_uni(fix: int):
+    """The Uni model without bool_union_fix (0), with it at the end of the
+    Unions that contain bool (1), or with it right after bool, in front of
+    the other members (2)."""
     class Sub:
         def __init__(self, x: int) -> None:
             self.x = x
-    if fix:
+    if fix == 2:
+        CT = Union[bool, yatiml.bool_union_fix, int]
+        DT = Union[bool, yatiml.bool_union_fix, Sub, List[int], None]
+        ET = Union[bool, yatiml.bool_union_fix, Color, None]
+    elif fix:
         CT = Union[int, bool, yatiml.bool_union_fix]
         DT = Union[bool, Sub, List[int], None, yatiml.bool_union_fix]
         ET = Union[bool, Color, None, yatiml.bool_union_fix]
